@@ -55,6 +55,7 @@ type SpecDB struct {
 	files      []string
 	lockCache  map[*ssa.Function]bool
 	tables     map[string]bool
+	effectFree map[string]bool
 }
 
 func expandName(s string) string {
@@ -164,7 +165,7 @@ func findFunc(prog *ssa.Program, all map[string]*ssa.Function, name string) *ssa
 }
 
 func buildSpecDB(prog *ssa.Program, pkgs []*packages.Package, allFns map[string]*ssa.Function) *SpecDB {
-	db := &SpecDB{contracts: map[string]*Contract{}, pure: map[string]bool{}, uninterp: map[string]bool{}, guards: map[string]map[int]int{}, invariants: map[string][]*ssa.Function{}, loopAnns: map[string]*LoopAnn{}, pureExts: map[string]bool{}, nullable: map[string]bool{}, lockCache: map[*ssa.Function]bool{}, tables: map[string]bool{}}
+	db := &SpecDB{contracts: map[string]*Contract{}, pure: map[string]bool{}, uninterp: map[string]bool{}, guards: map[string]map[int]int{}, invariants: map[string][]*ssa.Function{}, loopAnns: map[string]*LoopAnn{}, pureExts: map[string]bool{}, nullable: map[string]bool{}, lockCache: map[*ssa.Function]bool{}, tables: map[string]bool{}, effectFree: map[string]bool{}}
 	db.inlineExts = []string{"github.com/fatedier/golib/errors", "github.com/samber/lo"}
 	seen := map[string]bool{}
 	packages.Visit(pkgs, nil, func(p *packages.Package) {
@@ -377,6 +378,10 @@ func (db *SpecDB) readFile(prog *ssa.Program, p *packages.Package, spkg *ssa.Pac
 					}
 				}
 				db.loopAnns[fmt.Sprintf("%s#%d", tn, ord)] = la
+			case "effectfree-iface":
+				for _, n := range dir[1:] {
+					db.effectFree[expandName(n)] = true
+				}
 			case "inline-ext":
 				db.inlineExts = append(db.inlineExts, dir[1:]...)
 			case "pure-ext":
